@@ -9,6 +9,7 @@ func main() {
 		Groups:     []string{"con"},
 		Oracles:    txpipe.Oracles{Constraints: true},
 		QuickBound: 2, ThoroughBound: 3,
+		SyncLen: -2, SyncLenThorough: 2,
 		Rule: "Oracle: in every published state no two rows share a key value, a key() table holds at most one row, no two rows share a non-empty unique-index value (empty values may repeat); committed writes replayed in commit order on the reference model must all succeed (so exactly one of two racing inserters can win).",
 	})
 }
